@@ -189,6 +189,7 @@ func c27(r *core.Run) {
 			})
 		}
 	}
+	c27Helpers(r)
 }
 
 func c28(r *core.Run) {
